@@ -24,6 +24,8 @@ EXPLANATION = (
     'gathered partition is merged into the returned state, the hyper-parameters go through the base class, and the in-memory load ends '
     'in a barrier on every path that could have diverged.  Equality of saved and held tensors as values is not decided.')
 
+NOT_DECIDED = 'equality of saved and held tensors as values'
+
 
 def _atoms(p, f, n):  # noqa: ANN001, ANN202
     return [(re.sub(r'\s+', '', norm(a)), pol, g.via) for g in flow.guards(p, f, n) for a, pol in conjuncts(g.test, g.polarity)]
